@@ -325,7 +325,7 @@ def run(ctx):
         ctx.note(case, ("nested" in cl) and bool(set(cl) & NT), cl)
         ctx.handle(case, fails)
 
-    core.run_given(ctx, case_strategy(), body, ctx.n(2200, 6000), label="c01-main")
+    core.run_given(ctx, case_strategy(), body, ctx.n(1500, 6000), label="c01-main")
     ctx.notes["option_sets_covered"] = len(seen_opts)
     ctx.notes["option_sets_total"] = len(OPTSETS)
 
